@@ -21,7 +21,8 @@ LIB_CONTRACTS = [
     Contract(target="lib:Regex.finditer", params={"self": "Regex", "s": "bstr"}, returns="list[Match]",
              skip_body=True, global_ghosts=[Ghost("match_end", "Match -> int")],
              ensures=["all(0 <= match_end(result[k]) <= len(s) for k in range(len(result)))",
-                      "all(match_end(result[k]) <= match_end(result[k + 1]) for k in range(len(result) - 1))"],
+                      "all(match_end(result[a]) <= match_end(result[b]) for a in range(len(result)) "
+                      "for b in range(a, len(result)))"],
              notes="re: matches are found left to right; their ends are non-decreasing and inside the string"),
     Contract(target="lib:Match.end", params={"self": "Match"}, returns="int", skip_body=True,
              global_ghosts=[Ghost("match_end", "Match -> int")], ensures=["result == match_end(self)"]),
@@ -35,7 +36,9 @@ cleavage_sites = Contract(
     ensures=[
         "len(result) >= 2", "result[0] == 0", "result[len(result) - 1] == len(sequence)",
         "all(0 <= result[k] <= len(sequence) for k in range(len(result)))",
-        "all(result[k] <= result[k + 1] for k in range(len(result) - 1))",
+        # pairwise sortedness, behind a marker trigger (used on demand: assert marked('ord', a, b) first)
+        "forall(lambda a, b: implies(0 <= a <= b < len(result), result[a] <= result[b]), "
+        "trigger=lambda a, b: marked('ord', a, b))",
     ],
 )
 
@@ -135,7 +138,7 @@ _SITES_OK = [
     "all(0 <= sites[k] <= len(sequence) for k in range(len(sites)))",
 ]
 _SITES_SORTED = ["forall(lambda a, b: implies(0 <= a <= b < len(sites), sites[a] <= sites[b]), "
-                 "trigger=lambda a, b: (sites[a], sites[b]))"]
+                 "trigger=lambda a, b: marked('ord', a, b))"]
 
 cleave = Contract(
     target="mokapot.parsers.fasta._cleave",
@@ -146,10 +149,9 @@ cleave = Contract(
     # scope of the PROOF: fully enzymatic digestion with optional N-terminal methionine clipping.  The semi-enzymatic
     # branch (third nested loop) is specified below as well, but its obligations are not discharged reliably by
     # the solvers within the budget; it is decided by the bounded run only.
-    requires=_SITES_OK + ["missed_cleavages >= 0", "min_length >= 1", "not semi"],
-    quiet_requires=_SITES_SORTED,
+    requires=_SITES_OK + _SITES_SORTED + ["missed_cleavages >= 0", "min_length >= 1", "not semi"],
     lemmas=[Lemma("sorted", {"a": "int", "b": "int"}, requires=["0 <= a <= b < len(sites)"],
-                  ensures=["sites[a] <= sites[b]"], hints=["requires"])],
+                  ensures=["sites[a] <= sites[b]"], hints=["requires"], uses=["mark ord(a, b)"])],
     locals={"peptides": "set[Pep]", "ghost_i": "map[Pep,int]", "ghost_d": "map[Pep,int]", "ghost_x": "map[Pep,int]",
             "ghost_k": "map[Pep,int]"},
     entry_ghost=["ghost ghost_i: map[Pep,int]", "ghost ghost_d: map[Pep,int]", "ghost ghost_x: map[Pep,int]",
